@@ -211,6 +211,13 @@ func runWriteCase(c *WriteCase) *writeObs {
 	}()
 	select {
 	case <-done:
+	case <-wd.ctx.Done():
+		// the watchdog saw no progress and cancelled the context; a library call that still does not return
+		// (blocked on something that ignores its context) is not waited for
+		select {
+		case <-done:
+		case <-time.After(5 * time.Second):
+		}
 	case <-time.After(10 * time.Minute):
 		o.Panic = "hang: the write program did not finish"
 	}
